@@ -43,11 +43,12 @@ type Opt struct {
 
 // Case is one launch request.  Fail/Idx/Cb are used by C07 only ("none" for C04).
 type Case struct {
-	ID   int    `json:"id"`
-	Opt  Opt    `json:"opt"`
-	Fail string `json:"fail"` // step label of Launch.tla whose real failing input is arranged
-	Idx  int    `json:"idx"`  // mount / rlimit index for indexed steps
-	Cb   string `json:"cb"`   // "ok" | "err" (only meaningful with opt.sync)
+	ID    int    `json:"id"`
+	Opt   Opt    `json:"opt"`
+	Fail  string `json:"fail"`  // step label of Launch.tla whose real failing input is arranged
+	Idx   int    `json:"idx"`   // mount / rlimit index for indexed steps
+	Cb    string `json:"cb"`    // "ok" | "err" (only meaningful with opt.sync)
+	Crash string `json:"crash"` // "" | "exit" | "kill": a helper launcher process dies inside the callback
 }
 
 // Self is the probe's self-report (probes/launch.c).
@@ -234,6 +235,8 @@ type Obs struct {
 	PHost   string            `json:"phost"`
 	PDomain string            `json:"pdomain"`
 	Strace  bool              `json:"strace"`
+	Crash   string            `json:"crash"`
+	Orphan  string            `json:"orphan"` // launcher death cases: "gone" | "alive:<state>:<exe>" after the grace period
 	Cb      CbObs             `json:"cbobs"`
 	Marker  bool              `json:"marker"` // marker file exists after everything ended
 	Wait    string            `json:"wait"`   // wait4(-1, WNOHANG) right after Start returned an error: echild | running | zombie
@@ -320,6 +323,7 @@ type plan struct {
 	cbErr      bool
 	cbDelay    time.Duration
 	extraFiles []uintptr
+	cbHook     func(pid int) // runs first thing inside the callback
 	hold       bool
 	setupErr   string
 }
@@ -548,6 +552,9 @@ func launchLocked(e *Env, p *plan) (ob Obs) {
 	if c.Opt.Sync {
 		r.SyncFunc = func(pid int) error {
 			strMarker(e, fmt.Sprintf("@@cb-%d", c.ID))
+			if p.cbHook != nil {
+				p.cbHook(pid)
+			}
 			if p.cbDelay > 0 {
 				time.Sleep(p.cbDelay) // a blocked child stays blocked however long the callback takes
 			}
